@@ -39,9 +39,15 @@ try:
     import re
     cands = [t.rstrip(".,;:)") for t in re.findall(r"[\w./-]+", placement) if "/" in t and not t.startswith("demo") and not t.startswith("/tmp") and not t.startswith("./demo")]
     target = cands[-1].lstrip("./") if cands else ""
+    manual = {}
+    if "--place" in sys.argv:
+        for kv in sys.argv[sys.argv.index("--place")+1].split(","):
+            a, b = kv.split("="); manual[a] = b
     def place(dst_root):
         for f in files:
             rel = os.path.relpath(f, demo)
+            if os.path.basename(rel) in manual:
+                dst = os.path.join(dst_root, manual[os.path.basename(rel)], os.path.basename(rel)); os.makedirs(os.path.dirname(dst), exist_ok=True); shutil.copy(f, dst); continue
             if target.endswith(".go") and len(files) == 1: dst = os.path.join(dst_root, target)
             elif target.endswith(".go"): dst = os.path.join(dst_root, os.path.dirname(target), os.path.basename(rel))
             elif target: dst = os.path.join(dst_root, target, os.path.basename(rel))
